@@ -321,7 +321,8 @@ ADDENDA = {
            "faults that arise through history: every empty slice on ports of every width, edits attempted (and possibly "
            "refused) after a first elaboration / export, signals resized after a slice or concatenation of them was looked at.",
     "C03": " Later additions: ref_width proved (the present width of the referent, through module / primitive / external "
-           "instances); Slice properties resolve anew on each read (no memo); run-time contract on parents of 7 kinds "
+           "instances); Slice properties resolve anew on each read (no memo); slices of port references for 10 kinds of referent "
+           "(incl. bundle members, inside sliced concatenations) against the reference meaning; run-time contract on parents of 7 kinds "
            "(port and bundle references, slices, concatenations) incl. histories in which the referent is resized between "
            "two indexings; same-parent histories.",
     "C04": " Later additions: final connections to bundle members (b.x) in the elaborated histories; references held in a "
@@ -335,7 +336,9 @@ ADDENDA = {
     "C07": " Later additions: io_for_resolving / io_for_checking under contract; cache-ownership audit; histories with an "
            "unrelated look-alike design and with list calls that fail on their last member.",
     "C08": " Later additions: the poison invariant is an equivalence (an error is recorded on a module iff its own rewrite "
-           "raised), proved for elaborate_module_base, its loops and elaborate_tops.",
+           "raised); a module on or below which a pass failed is not marked done; nothing below marks a pending module done - "
+           "proved for elaborate_module_base, its loops and elaborate_tops; persistent faults retried 7 times through every entry "
+           "point; repaired child ports after a failure.",
     "C09": " Later additions: qualpath under contract; every pair of strings of up to three pieces over small alphabets "
            "(blanks, '=', line breaks, None) named differently; a call repeated after 3 000 (20 000) other cached calls; "
            "external modules of one name in two domains and generators / modules of one name from two Python modules as "
@@ -349,9 +352,12 @@ ADDENDA = {
            "another PDK.",
     "C16": " Later additions: three separator / empty-name guards of walk proved; ports re-declared after use at every level; "
            "path names of several hundred characters.",
-    "C17": " Later additions: export_attr / named analyses / Sim.add loop body under contract; analysis objects used more than "
+    "C17": " Later additions: to_proto of a Sim / a list of 1-3 Sims under contract (i-th result is the i-th Sim's); option "
+           "values; Sims edited in place between exports; export_attr / named analyses / Sim.add loop body under contract; analysis objects used more than "
            "once (nested ones included); lists of 3-4 Sims with interleaved testbenches.",
-    "C18": " Later additions: Module.add refuses the protected names (must_raise clause); __getattr__ for underscore names; "
+    "C18": " Later additions: Bundle.add and the class-body loops of @module / @bundle under contract; assignment of an "
+           "object already held moves it; the prior holder of a re-used name leaves the module (existential over the "
+           "namespace); Module.add refuses the protected names (must_raise clause); __getattr__ for underscore names; "
            "names only add() can give; class bodies whose values already carry another name (modules and bundles).",
     "C19": " Later additions: _unused_name and a naming-site audit of Series / Wrapper; unit ports called like the generator's "
            "own objects (i, units, inner, units_0); units of one name from one factory.",
